@@ -163,6 +163,12 @@ Check (C05_spec_no_double_clear_on_model : forall c : case,
   let '(tr, rss, _, _, _) := run_case c in
   nodupb (flat_map handed (filter is_clear (rcalls tr 0 rss))) = true).
 Print Assumptions C05_spec_no_double_clear_on_model.
+Check (C05_popcount_len_refuted : let cf := fst (exec (step BS true true) site (init_config [[CPush 1%N]; [CPush 2%N]; [CData]]) popcount_sched) in
+  let k := getb (heap (fst cf)) 0 in
+  option_map pcl (nth_error (snd cf) 2) = Some (WD false 0 []) /\
+  count_true (bdone k) = 1 /\ tones (bdone k) = 0 /\
+  data_of k (count_true (bdone k)) = [garbage] /\ data_of k (tones (bdone k)) = []).
+Print Assumptions C05_popcount_len_refuted.
 Check (C05_late_claim_refutes : exists c, known_class c = Some 1%N /\ spec_ok c (run_case c) = false).
 Print Assumptions C05_late_claim_refutes.
 Check (C05_handover_refuted_before_fix : late_claim_gen 2 false true handover_case = false /\ spec_gen 2 false true handover_case = false /\
